@@ -44,6 +44,7 @@ def run_case(case):
                                 "replay": {"case": case, "source": src, "minimal": mini}})
         return res
     if case.get("cosim"):
+        res["findings"] += util.token_cosim([st_.text() for st_ in p.flat()][::3], case=case)
         fs, info = util.block_cosim(src, std=std, ignore_comments=not keep, case=case)
         res["findings"] += fs
         res["counts"]["block-cosim"] = 1
